@@ -82,6 +82,18 @@ class EscJudge:
                     return None
                 if any(g in self.raw_text_producers for g in cs.callees):
                     return e
+                if len(cs.callees) == 1 and cs.callees[0].module is self.f.module and cs.callees[0] is not self.f \
+                        and (cs.callees[0].cls is None or cs.callees[0].name.startswith("_")) and len(seen) < 6:
+                    # a private helper of the renderer module: every value it returns is judged (in its own scope)
+                    g = cs.callees[0]
+                    gj = EscJudge(self.c, g)
+                    rets = [n_ for n_ in own_nodes(g.node) if isinstance(n_, ast.Return) and n_.value is not None]
+                    if rets:
+                        for rt_ in rets:
+                            u = gj.unsafe_leaf(rt_.value, frozenset(seen | {"@" + g.name}))
+                            if u is not None:
+                                return e
+                        return None
                 if all(g.cls is not None and g.cls.split("@")[0] in ("RendererHTML", "RendererProtocol") for g in cs.callees):
                     return None                      # output of another render method (checked on its own)
                 return e
@@ -105,6 +117,44 @@ class EscJudge:
                 a = e.args[0]
                 if isinstance(a, (ast.ListComp, ast.GeneratorExp)):
                     return self.unsafe_leaf(a.elt, seen)
+                if isinstance(a, (ast.List, ast.Tuple)):
+                    for x in a.elts:
+                        u = self.unsafe_leaf(x, seen)
+                        if u is not None:
+                            return u
+                    return None
+                if isinstance(a, ast.Name) and a.id not in self.params and a.id not in seen:
+                    # a local list that collects the pieces: its literal elements and everything appended / extended to it
+                    pieces: list[ast.AST] = []
+                    ok_list = True
+                    for d in self.defs.get(a.id) or []:
+                        if isinstance(d, (ast.List, ast.Tuple)):
+                            pieces += list(d.elts)
+                        elif isinstance(d, ast.ListComp):
+                            pieces.append(d.elt)
+                        else:
+                            ok_list = False
+                    for n_ in own_nodes(self.f.node):
+                        if isinstance(n_, ast.Call) and isinstance(n_.func, ast.Attribute) and isinstance(n_.func.value, ast.Name) and n_.func.value.id == a.id:
+                            if n_.func.attr == "append" and n_.args:
+                                pieces.append(n_.args[0])
+                            elif n_.func.attr == "extend" and n_.args and isinstance(n_.args[0], (ast.List, ast.Tuple)):
+                                pieces += list(n_.args[0].elts)
+                            elif n_.func.attr in ("insert",) and len(n_.args) == 2:
+                                pieces.append(n_.args[1])
+                            elif n_.func.attr not in ("copy", "count", "index"):
+                                ok_list = False
+                        if isinstance(n_, ast.AugAssign) and isinstance(n_.target, ast.Name) and n_.target.id == a.id:
+                            if isinstance(n_.value, (ast.List, ast.Tuple)):
+                                pieces += list(n_.value.elts)
+                            else:
+                                ok_list = False
+                    if ok_list and (self.defs.get(a.id) or []):
+                        for x in pieces:
+                            u = self.unsafe_leaf(x, seen | {a.id})
+                            if u is not None:
+                                return u
+                        return None
                 return self.unsafe_leaf(a, seen)
             if isinstance(fn, ast.Name) and fn.id == "str" and len(e.args) == 1:
                 t = self.sc.type(e.args[0])
